@@ -9,23 +9,35 @@ CONSTANTS
   Modes,        \* subset of {"run", "master"}
   Conts,        \* subset of BOOLEAN
   Forks,        \* subset of BOOLEAN
+  Starts,       \* start_index values: 0, inside, equal to, beyond the STH
+  TreeStart,    \* TRUE: also start_index -1 (= the destination's tree size; cfg files take no negative numbers)
+  Ends,         \* end_index values: 0 (none), inside, equal to, beyond the STH
+  Aheads,       \* how many entries the source serves beyond the STH it announces
   MaxFaults, FaultBudgets, MaxRestarts
 
 \* destination at the start: empty, partial (some of it integrated), full
 DestShapes(s) == {<<0, 0>>} \cup {<<dl, di>> \in (1..s) \X (0..s) : di <= dl /\ (di = dl \/ di = 0 \/ di = dl - 1)}
 
-Cfgs ==
-  { c \in [ src0 : SrcSizes, growth : Growths, bad : {{1}}, destLen : 0..MaxIdx, destInt : 0..MaxIdx,
-            batch : Batches, fetchers : FetcherCounts, submitters : SubmitterCounts,
-            cont : Conts, stop : {FALSE}, start : {0, -1}, forked : Forks, forkAt : 0..MaxIdx,
-            mode : Modes, faults : FaultBudgets, restarts : {MaxRestarts} ] :
-      /\ c.src0 + c.growth <= MaxIdx
-      /\ <<c.destLen, c.destInt>> \in DestShapes(c.src0)
-      /\ (c.cont => c.start = 0)
-      /\ (~c.forked => c.forkAt = 0)
-      \* a forked source: one fork point inside the initial history; what the destination holds beyond its
-      \* integrated prefix must not already contradict the fork (that conflict would be the environment's doing)
-      /\ (c.forked => c.forkAt = 1 /\ c.src0 >= 2 /\ (c.destLen <= c.forkAt \/ c.destInt = c.destLen)) }
+\* the scenarios.  Built shape by shape (not as one filtered product, which outgrows TLC's set limit once the range
+\* dimension is in): the environment, the destination's shape, the fork (one fork point inside the initial history;
+\* what the destination holds beyond its integrated prefix must not already contradict the fork - that conflict would
+\* be the environment's doing), then the migrator's configuration.
+Envs == { e \in [ src0 : SrcSizes, growth : Growths, ahead : Aheads ] : e.src0 + e.growth + e.ahead <= MaxIdx }
+ForkChoices(e, d) == {<<FALSE, 0>>} \cup
+                     (IF TRUE \in Forks /\ e.src0 >= 2 /\ (d[1] <= 1 \/ d[2] = d[1]) THEN {<<TRUE, 1>>} ELSE {})
+Worlds == UNION { UNION { { [ src0 |-> e.src0, growth |-> e.growth, ahead |-> e.ahead, bad |-> {1},
+                              destLen |-> d[1], destInt |-> d[2], forked |-> f[1], forkAt |-> f[2] ] :
+                            f \in {g \in ForkChoices(e, d) : g[1] \in Forks} } :
+                          d \in DestShapes(e.src0) } : e \in Envs }
+Knobs == { k \in [ batch : Batches, fetchers : FetcherCounts, submitters : SubmitterCounts, cont : Conts, stop : {FALSE},
+                   start : Starts \cup (IF TreeStart THEN {-1} ELSE {}), end : Ends,
+                   mode : Modes, faults : FaultBudgets, restarts : {MaxRestarts} ] :
+             \* continuous mode ignores the range (ContIgnoresRange): start -1 says nothing new there, every other value does
+             k.cont => k.start # -1 }
+Cfgs == { [ src0 |-> w.src0, growth |-> w.growth, ahead |-> w.ahead, bad |-> w.bad, destLen |-> w.destLen, destInt |-> w.destInt,
+            batch |-> k.batch, fetchers |-> k.fetchers, submitters |-> k.submitters, cont |-> k.cont, stop |-> k.stop,
+            start |-> k.start, end |-> k.end, forked |-> w.forked, forkAt |-> w.forkAt, mode |-> k.mode,
+            faults |-> k.faults, restarts |-> k.restarts ] : w \in Worlds, k \in Knobs }
 
 MCInit == \E c \in Cfgs : InitWith(c)
 MCSpec == MCInit /\ [][Next]_vars
@@ -35,8 +47,8 @@ TypeOK ==
   /\ srcSize \in 0..MaxIdx /\ destSize \in 0..MaxIdx /\ pos \in 0..MaxIdx /\ root \in 0..MaxIdx /\ sth \in -1..MaxIdx
   /\ pc \in {"start", "prepare", "verify", "run", "passDone", "unwind", "await", "returned"}
   /\ Cardinality(out) <= cfg.fetchers /\ Cardinality(hold) <= cfg.submitters
-  /\ \A r \in out : r.s <= r.e /\ r.e < sth
-  /\ \A b \in bag : b.n >= 0 /\ b.s + b.n <= sth /\ (b.n = 0 <=> b.u > 0)
+  /\ \A r \in out : r.s <= r.e /\ r.e < Hi /\ r.s >= 0
+  /\ \A b \in bag : b.n >= 0 /\ b.s + b.n <= Hi /\ (b.n = 0 <=> b.u > 0)
   /\ \A h \in hold : h.n >= 0 /\ (h.n = 0 <=> h.u > 0) /\ (h.st = "wait" => h.n > 0)
   /\ faults \in 0..MaxFaults
 
